@@ -239,7 +239,7 @@ mod listing {
                     }
                     out.pre.push((name, dec_str(v)?));
                 }
-                ["a" | "aq", n, vs, a] => {
+                ["a" | "aq" | "aQ", n, vs, a] => {
                     let name = dec_str(n)?;
                     let vals: Vec<String> = if *vs == "." {
                         vec![]
@@ -432,6 +432,72 @@ mod listing {
         Ok(())
     }
 
+    /// Does the listing `text` of kind `k` recreate the state `s1` once the quoted array names (finding 6:
+    /// `'a*'=(…)` is not an assignment) are replaced by identifiers?  Checked: every other entry as usual, the
+    /// elements of each such array (under the identifier), its attributes (the attribute line keeps the name).
+    fn only_quoted_array_names(k: &str, text: &str, aq: &[(String, String)], s1: &[String]) -> bool {
+        let Some(lines) = logical_lines(text) else { return false };
+        let mut re = String::new();
+        let mut replaced = vec![false; aq.len()];
+        for l in &lines {
+            let mut l = l.clone();
+            for (i, (_, q)) in aq.iter().enumerate() {
+                if l.starts_with(&format!("{q}=(")) && !replaced[i] {
+                    l = format!("QZJXA{i}{}", &l[q.len()..]);
+                    replaced[i] = true;
+                    break;
+                }
+            }
+            re.push_str(&l);
+            re.push('\n');
+        }
+        re.push_str("snap\n");
+        let Ok((_, Some(s2))) = run(&re) else { return false };
+        let is_aq = |l: &String| var_fields(l).is_some_and(|(n, _, _)| aq.iter().any(|(name, _)| h(name) == n));
+        let rest: Vec<String> = s1.iter().filter(|l| !is_aq(l)).cloned().collect();
+        if recreated(k, &rest, &s2).is_err() {
+            return false;
+        }
+        let vars2: Vec<(String, String, String)> = s2.iter().filter_map(|l| var_fields(l)).collect();
+        for (i, (name, _)) in aq.iter().enumerate() {
+            let Some((_, a, v)) = s1.iter().filter_map(|l| var_fields(l)).find(|f| f.0 == h(name)) else { return false };
+            let listed = match k {
+                "X" => a.starts_with('1'),
+                "R" => a.ends_with('1'),
+                _ => true,
+            };
+            if !listed {
+                if replaced[i] {
+                    return false;
+                }
+                continue;
+            }
+            // the elements, under the identifier
+            if !replaced[i] || !vars2.iter().any(|f| f.0 == h(&format!("QZJXA{i}")) && f.2 == v) {
+                return false;
+            }
+            // the attributes, through the attribute line `typeset -x 'a*'` / `export 'a*'` / `readonly 'a*'`
+            let want_line = k != "V" || a != "00";
+            let got = vars2.iter().find(|f| f.0 == h(name));
+            let ok = match (want_line, got) {
+                (false, None) => true,
+                (true, Some((_, a2, v2))) => {
+                    v2 == "N"
+                        && match k {
+                            "X" => a2.starts_with('1'),
+                            "R" => a2.ends_with('1'),
+                            _ => *a2 == a,
+                        }
+                }
+                _ => false,
+            };
+            if !ok {
+                return false;
+            }
+        }
+        true
+    }
+
     pub fn run_case(case: &str) {
         let Some(sc) = script_of(case) else {
             emit(case, "bad-case", "-");
@@ -490,7 +556,21 @@ mod listing {
             texts[qi] = "";
         }
         let text_of = |key: &str| texts[KINDS.iter().position(|k| k.0 == key).unwrap()];
-        let mut verdict: Option<String> = None;
+        // arrays whose name the quoter quotes (known finding 6): (name, quoted spelling)
+        let aq_names: Vec<(String, String)> = case
+            .split_whitespace()
+            .skip(1)
+            .filter_map(|op| {
+                let f: Vec<&str> = op.split(':').collect();
+                if matches!(f[0], "aq" | "aQ") { dec_str(f.get(1)?) } else { None }
+            })
+            .map(|n| {
+                let q = yash_quote::quoted(&n).to_string();
+                (n, q)
+            })
+            .collect();
+        // every failure, in the order of KINDS; `known` = explained completely by finding 6
+        let mut failures: Vec<(String, bool)> = vec![];
         for (i, (key, k, _)) in KINDS.iter().enumerate() {
             if *k == "-" {
                 continue; // not meant to be evaluated (`set -o`)
@@ -502,7 +582,7 @@ mod listing {
             match *k {
                 "A" => {
                     let Some(lines) = logical_lines(text) else {
-                        verdict.get_or_insert(format!("FAIL:{key}:listing-does-not-lex"));
+                        failures.push((format!("FAIL:{key}:listing-does-not-lex"), false));
                         continue;
                     };
                     for l in &lines {
@@ -541,11 +621,26 @@ mod listing {
                 Err(p) => Err(p),
             };
             if let Err(e) = res {
-                verdict.get_or_insert(format!("FAIL:{key}:{e}"));
+                // finding 6 explains this failure iff the listing, with nothing changed but the quoted array
+                // names replaced by identifiers, recreates everything: the other entries, the elements of
+                // these arrays, and their attributes (through the attribute lines)
+                let known = matches!(*k, "V" | "X" | "R") && !aq_names.is_empty() && only_quoted_array_names(k, text, &aq_names, before);
+                failures.push((format!("FAIL:{key}:{e}"), known));
             } else if not_literal {
-                verdict.get_or_insert(format!("FAIL:{key}:not-literal-only"));
+                failures.push((format!("FAIL:{key}:not-literal-only"), false));
             }
         }
+        // a case keeps the marker `aq:` (the key of the known finding) only if finding 6 explains EVERY failure;
+        // otherwise it is reported under `aQ:` (same meaning for the model), which no known finding matches
+        let other = failures.iter().find(|f| !f.1).map(|f| f.0.clone());
+        let verdict: Option<String> = other.clone().or_else(|| failures.first().map(|f| f.0.clone()));
+        let renamed;
+        let case = if other.is_some() && !aq_names.is_empty() {
+            renamed = case.replace(" aq:", " aQ:");
+            renamed.as_str()
+        } else {
+            case
+        };
         let mut obs: Vec<String> = OBS.iter().map(|k| format!("{k}={}", h(text_of(k)))).collect();
         // attribute lines of `typeset -fp` (function bodies are not predicted by the model)
         let fa: String = logical_lines(text_of("F"))
@@ -598,7 +693,13 @@ mod listing {
 
     fn weird(r: &mut Rng, max: usize, allow_eq: bool) -> String {
         loop {
-            let s = random_string(r, CORE, max);
+            let mut s = random_string(r, CORE, max);
+            // one string in eight carries a control character, DEL, a Unicode blank / separator or a bidi mark
+            if max >= 4 && r.chance(1, 8) {
+                let cs: Vec<char> = s.chars().collect();
+                let i = r.below(cs.len() + 1);
+                s = cs[..i].iter().chain(std::iter::once(r.pick(EXOTIC))).chain(cs[i..].iter()).collect();
+            }
             if allow_eq || !s.contains('=') {
                 return s;
             }
@@ -773,6 +874,19 @@ const CORE: &[char] = &[
 const EXTRA: &[char] = &[
     ')', '>', '?', '!', '%', '^', '-', ',', '/', '.', '+', '@', 'b', '0', '7', '_', '\u{a0}', '\u{85}',
     '\r', '\u{e9}',
+];
+/// characters that are invalid or odd "in some other way": C0 controls (no NUL), DEL, C1 NEL, the Unicode
+/// blanks / line separators of `char::is_whitespace`, bidi and zero-width marks, a combining mark, an astral character
+const EXOTIC: &[char] = &[
+    '\u{1}', '\u{7}', '\u{8}', '\u{b}', '\u{c}', '\u{e}', '\u{1b}', '\u{1c}', '\u{1f}', '\u{7f}', '\u{85}', '\u{a0}', '\u{ad}',
+    '\u{1680}', '\u{2000}', '\u{2003}', '\u{200a}', '\u{200b}', '\u{200e}', '\u{2028}', '\u{2029}', '\u{202e}', '\u{202f}', '\u{205f}',
+    '\u{2066}', '\u{3000}', '\u{feff}', '\u{301}', '\u{1f600}', '\u{fffd}',
+];
+/// strings that are special as a whole word
+const EXOTIC_WORDS: &[&str] = &[
+    "if", "then", "else", "elif", "fi", "do", "done", "case", "esac", "while", "until", "for", "in", "function", "select",
+    "namespace", "{", "}", "!", "[[", "]]", "{}", "{a}", "}{", "~", "~a", "~/", "~a/b", "a~", "#", "#a", "a#", "##", "-", "--",
+    "-n", "+", "=", "a=", "=a", "[", "]", "[]", "[a]", "*", "?", ":", ":~", "a:~", "~:~", "%", "@", "0", "1>", "\\", "''", "\"\"",
 ];
 /// alphabet of the raw-text (`w`) leg: everything the lexer treats specially in a word
 const LEXA: &[char] = &[
@@ -1398,6 +1512,26 @@ fn main() {
         let mut r = rng.fork();
         let alpha: &[char] = if r.chance(1, 2) { CORE } else { &full };
         push(random_string(&mut r, alpha, 40), &mut strings);
+    }
+    // whole strings that are special as a WORD: reserved words, a lone / leading `~` `#`, braces, `!`, option-like
+    for w in EXOTIC_WORDS {
+        push(w.to_string(), &mut strings);
+    }
+    // control characters (no NUL), DEL, NEL, line / paragraph separator, bidi and zero-width marks, every
+    // Unicode blank (`is_blank` is `char::is_whitespace` minus newline): alone, doubled, and mixed with core characters
+    for &c in EXOTIC {
+        push(c.to_string(), &mut strings);
+        for &d in &['a', '\'', ' ', '~', '#', '='] {
+            push(format!("{c}{d}"), &mut strings);
+            push(format!("{d}{c}"), &mut strings);
+        }
+    }
+    let mut rng = Rng::new(o.seed ^ 0xC07_7);
+    let mixed: Vec<char> = EXOTIC.iter().chain(CORE.iter()).copied().collect();
+    for _ in 0..(if thorough { 40_000 } else { 2_000 }) {
+        let mut r = rng.fork();
+        let alpha: &[char] = if r.chance(1, 2) { EXOTIC } else { &mixed };
+        push(random_string(&mut r, alpha, 12), &mut strings);
     }
     run_q(&strings);
 
